@@ -76,8 +76,13 @@ Log(rec, o) ==
     /\ hist' = Append(hist, rec)
     /\ step' = step + 1
 
+\* evaluated once by TLC (constant-level, no parameters)
+ClassSet  == Classes(OpFacts)
+ClassOps  == [k \in ClassSet |-> NamesOf(OpFacts, k)]
+ClassRep  == [k \in ClassSet |-> CHOOSE n \in ClassOps[k] : TRUE]   \* one opcode standing for its class in hist
+
 Rec(kind, k, req, c, o, g) ==
-    [kind |-> kind, ops |-> NamesOf(OpFacts, k), req |-> req, c |-> c, o |-> o, give |-> g]
+    [kind |-> kind, op |-> ClassRep[k], req |-> req, c |-> c, o |-> o, give |-> g]
 
 ----------------------------------------------------------------------------
 Init ==
@@ -129,7 +134,7 @@ Return ==
 
 Next ==
     /\ step < MaxOps /\ ~halted
-    /\ \/ \E k \in Classes(OpFacts), req \in Sizes, c \in ConstGas, o \in OtherGas :
+    /\ \/ \E k \in ClassSet, req \in Sizes, c \in ConstGas, o \in OtherGas :
             \/ Exec(k, req, c, o)
             \/ OutOfGas(k, req, c, o)
             \/ \E g \in Gives : Call(k, req, c, o, g)
@@ -161,13 +166,15 @@ GrowthCharged ==
 
 \* Which opcodes break MemoryPaid, evaluated with the operators the actions are made of:
 \* from an empty frame, some request makes the frame hold memory it did not pay for.
-Unmetered(F) ==
-    {f.name : f \in {g \in F :
-        \E req \in Sizes :
-            LET a == ExecEffect(NewFrame(0), ClassOf(g), req, 0, 0)
-            IN  MemCost(a.mem) > a.spent}}
+UnmeteredClass(k) ==
+    \E req \in Sizes :
+        LET a == ExecEffect(NewFrame(0), k, req, 0, 0)
+        IN  MemCost(a.mem) > a.spent
+Unmetered(F) == LET bad == {k \in Classes(F) : UnmeteredClass(k)}
+                IN  {f.name : f \in {g \in F : ClassOf(g) \in bad}}
 UnmeteredOps == Unmetered(OpFacts)
-Sound(F) == {f \in F : f.name \notin Unmetered(F)}
+Sound(F) == LET bad == {k \in Classes(F) : UnmeteredClass(k)}
+            IN  {f \in F : ClassOf(f) \notin bad}
 
 \* every explored behaviour, for inspection
 EmitHist == PrintT("@@" \o ToJson(hist'))
